@@ -119,7 +119,7 @@ def run(ctx):
         # real genomes of the bundled test database, re-rendered at random: the signature must not change (k = 11, ATGAC)
         rng = random.Random(ctx.seed)
         from Bio import SeqIO
-        genomes = sorted(glob.glob('/repo/tests/data/testdb_210818/queries/genomes/*.fasta'))[: (4 if ctx.tier == 'quick' else 20)]
+        genomes = sorted(glob.glob(os.path.join(os.environ.get('GAMBIT_REPO', '/repo'), 'tests/data/testdb_210818/queries/genomes/*.fasta')))[: (4 if ctx.tier == 'quick' else 20)]
         from gambit.kmers import DEFAULT_KMERSPEC
         nre = 0
         for gpath in genomes:
